@@ -53,6 +53,7 @@ func init() {
 		name := cstr(p, a[0], "Int name")
 		v := mkVar(fmt.Sprintf("in%d_%s", len(p.inputs), sanitize(name)), SInt)
 		p.inputs = append(p.inputs, Input{Name: name, Kind: "int", v: v})
+		p.flushAsserts()
 		p.addPC(int64Info.inRange(v))
 		return v
 	}
@@ -61,11 +62,7 @@ func init() {
 		v := mkVar(fmt.Sprintf("in%d_%s", len(p.inputs), sanitize(name)), SInt)
 		p.inputs = append(p.inputs, Input{Name: name, Kind: "int", v: v})
 		c := mkAnd(mkLe(termOf(a[1]), v), mkLe(v, termOf(a[2])))
-		if p.pos >= len(p.prefix) {
-			if p.s.CheckWith(c) == Unsat {
-				panic(pathEnd{"assume-false"})
-			}
-		}
+		p.assumeFeasible(c)
 		p.addPC(c)
 		return v
 	}
@@ -73,6 +70,10 @@ func init() {
 		name := cstr(p, a[0], "Bool name")
 		v := mkVar(fmt.Sprintf("in%d_%s", len(p.inputs), sanitize(name)), SBool)
 		p.inputs = append(p.inputs, Input{Name: name, Kind: "bool", v: v})
+		if p.freshBools == nil {
+			p.freshBools = map[string]bool{}
+		}
+		p.freshBools[v.sv] = true
 		return v
 	}
 	I[vzPkg+".Choice"] = func(p *Path, a []Value, _ *ssa.CallCommon) Value {
@@ -87,7 +88,7 @@ func init() {
 		for i := range conds {
 			conds[i] = mkEq(v, mkInt(int64(i)))
 		}
-		k := p.decide(conds)
+		k := p.decideX(conds, true)
 		return mkInt(int64(k))
 	}
 	I[vzPkg+".Concretize"] = func(p *Path, a []Value, _ *ssa.CallCommon) Value {
@@ -116,11 +117,7 @@ func init() {
 			}
 			return nil
 		}
-		if p.pos >= len(p.prefix) {
-			if p.s.CheckWith(c) == Unsat {
-				panic(pathEnd{"assume-false"})
-			}
-		}
+		p.assumeFeasible(c)
 		p.addPC(c)
 		return nil
 	}
@@ -183,7 +180,9 @@ func init() {
 
 	// ---------- time ----------
 	I["time.Now"] = func(p *Path, a []Value, site *ssa.CallCommon) Value {
-		if fn := p.eng.lookupFunc(vzPkg, "Now"); fn != nil {
+		if fn := p.eng.lookupFunc(vzPkg, "Now"); fn != nil && !p.inTimeNow {
+			p.inTimeNow = true
+			defer func() { p.inTimeNow = false }()
 			return p.callFunc(fn, nil, nil, site)
 		}
 		return p.freshInstant("time.Now")
@@ -316,6 +315,17 @@ func init() {
 		return p.fresh("opaque_duration", SStr)
 	}
 	I["(*time.Location).String"] = opaqueStr("locString")
+	floatOfDur := func(div float64) intrinsicFn {
+		return func(p *Path, a []Value, _ *ssa.CallCommon) Value {
+			if d, ok := termOf(a[0]).constInt64(); ok {
+				return FloatVal{float64(d) / div}
+			}
+			return Poison{"float of symbolic duration"}
+		}
+	}
+	I["(time.Duration).Seconds"] = floatOfDur(1e9)
+	I["(time.Duration).Minutes"] = floatOfDur(60e9)
+	I["(time.Duration).Hours"] = floatOfDur(3600e9)
 
 	// ---------- sync ----------
 	nop := func(p *Path, a []Value, _ *ssa.CallCommon) Value { return nil }
@@ -1411,4 +1421,20 @@ func mergeValuesOrFork(p *Path, c *Term, a, b Value) (r Value) {
 		}
 	}()
 	return mergeValues(c, a, b)
+}
+
+// assumeFeasible ends the path if pc && c is unsatisfiable (skipped while
+// replaying a known-feasible prefix, and when the current model already satisfies c).
+func (p *Path) assumeFeasible(c *Term) {
+	p.flushAsserts()
+	if p.pos < len(p.prefix) {
+		return
+	}
+	if v, ok := p.evalUnderModel(c); ok && v {
+		return
+	}
+	p.s.tag = "assume"
+	if p.s.CheckWith(c) == Unsat {
+		panic(pathEnd{"assume-false"})
+	}
 }
